@@ -22,6 +22,48 @@ func init() {
 	families = append(families, family{"SrcC11", func() string {
 		return g2lFile("«notation»", g2lDecls("notation.go", []string{"reservedAnnotationPrefixes"}), srcC11, "NotationModel.Src.TypesC11")
 	}})
+	// what the library's own signers decide about the payload and the plugin config (round 5). Namespaces of their
+	// own (c11.signer, c11.envelope): other properties translate some of these functions too, with other type modules.
+	families = append(families, family{"SrcC11b", func() string {
+		return g2lFile("c11.signer", "", srcC11b, "NotationModel.Src.TypesC11")
+	}})
+	families = append(families, family{"SrcC11c", func() string {
+		return g2lFile("c11.envelope", "", srcC11c, "NotationModel.Src.TypesC11")
+	}})
+}
+
+var srcC11b = []*g2lTarget{
+	{
+		// the per-call config is the CALLER's map (SignerSignOptions.PluginConfig): shared, with a ghost
+		file: "signer/plugin.go", recv: "PluginSigner", fn: "mergeConfig", leanName: "PluginSigner.mergeConfig",
+		params:     "(s : PluginSigner) (config : GoLite.Map String String)",
+		ret:        "GoLite.Map String String × GoLite.Map String String",
+		retOpt:     []bool{false},
+		subst:      map[string]string{"range:s.pluginConfig": "map", "range:config": "map"},
+		sharedMaps: []string{"config"},
+	},
+	{
+		file: "signer/plugin.go", fn: "isDescriptorSubset", leanName: "isDescriptorSubset",
+		params: "(original newDesc : ocispec.Descriptor)",
+		ret:    "Bool",
+		retOpt: []bool{false},
+		subst:  map[string]string{"range:original.Annotations": "map"},
+	},
+	{
+		file: "signer/plugin.go", fn: "isPayloadDescriptorValid", leanName: "isPayloadDescriptorValid",
+		params: "(originalDesc newDesc : ocispec.Descriptor)",
+		ret:    "Bool",
+		retOpt: []bool{false},
+	},
+}
+
+var srcC11c = []*g2lTarget{
+	{
+		file: "internal/envelope/envelope.go", fn: "SanitizeTargetArtifact", leanName: "SanitizeTargetArtifact",
+		params: "(targetArtifact : ocispec.Descriptor)",
+		ret:    "ocispec.Descriptor",
+		retOpt: []bool{false},
+	},
 }
 
 var srcC11 = []*g2lTarget{
